@@ -68,12 +68,31 @@ func decodeFrame(compression string, raw []byte) (*frame.Frame, error) {
 }
 
 func encodeFrame(compression string, frm *frame.Frame) []byte {
+	b := encodeFrame1(compression, frm)
+	if frm.Header.Flags.Contains(primitive.HeaderFlagCompressed) {
+		// The reference lz4 compressor produces frames it cannot decompress itself when the body is
+		// incompressible; a peer may choose per frame whether to compress, so such frames go out uncompressed.
+		if _, err := decodeFrame(compression, b); err != nil {
+			frm.SetCompress(false)
+			b = encodeFrame1(compression, frm)
+		}
+	}
+	return b
+}
+
+func encodeFrame1(compression string, frm *frame.Frame) []byte {
 	c := refCodecs[compression]
 	var buf bytes.Buffer
 	if err := c.EncodeFrame(frm, &buf); err != nil {
 		panic(fmt.Sprintf("harness: cannot encode %v: %v", frm, err))
 	}
-	return buf.Bytes()
+	b := buf.Bytes()
+	// The reference encoder counts 16 bytes of tracing id into the body length of *request* frames
+	// that merely carry the tracing flag (requests have no tracing id): correct the length field.
+	if len(b) >= hdrLen && int(binary.BigEndian.Uint32(b[5:9])) != len(b)-hdrLen {
+		binary.BigEndian.PutUint32(b[5:9], uint32(len(b)-hdrLen))
+	}
+	return b
 }
 
 var tokenRe = regexp.MustCompile(`tok[0-9]+x`)
